@@ -275,6 +275,12 @@ class OutgoingRIB(Cache):
 
         self._pending_withdraws.setdefault(route_family, {})[nlri_index] = (nlri, attrs if attrs else AttrsClass())
 
+        # a refresh queued before this withdraw (flush adj-rib out, ROUTE-REFRESH from the peer) holds a copy of the
+        # route: it would be announced again after being withdrawn -- for good in the first window of a session,
+        # where the withdraw itself is not sent because the peer has nothing yet
+        if self._refresh_routes:
+            self._refresh_routes = [queued for queued in self._refresh_routes if queued.index() != route_index]
+
         # Update cache to remove the announced route
         self.update_cache_withdraw(nlri)
 
